@@ -129,7 +129,9 @@ PROPS['C19'] = {
 PROPS['C05'] = {
     'lean_targets': ['EmmetProps.C05', 'EmmetProps.C18'],
     'lean_imports': ['EmmetProps.C05', 'EmmetProps.C18'],
-    'theorems': [
+    'theorems': [thm('EmmetProps.C05_units', 'unit decision for EVERY option set, property and value list: explicit unit replaced when an alias and kept otherwise; bare 0 and values of unitless properties stay bare; otherwise float unit when written with a dot, integer unit when not; nothing else touched'),
+        thm('EmmetProps.C05_default_units', 'documented defaults read off the REGENERATED option table through the configuration model: px / em, aliases e p x r, the eight unitless properties'),
+        
         thm('EmmetProps.C05_hex6_roundtrip', 'all 2^24 colours: the six-digit form written by the colour printer reads back as the same (r,g,b) — a colour never changes its value'),
         thm('EmmetProps.C05_hex3_roundtrip', 'all colours whose channels are multiples of 17: the short form reads back as the same (r,g,b)'),
         thm('EmmetProps.C18_css', 'the value language is tokenized losslessly (tiling), property and value mode'),
@@ -146,6 +148,8 @@ PROPS['C06'] = {
     'lean_targets': ['EmmetProps.C06'],
     'lean_imports': ['EmmetProps.C06'],
     'theorems': [
+        thm('EmmetProps.C06_names_distinct', 'whole REGENERATED stylesheet snippet file as written (`k1|k2: body`): no key is claimed by two entries'),
+        thm('EmmetProps.C06_names_from_source', 'the keys of the table the matcher model runs on are exactly the written keys, in order'),
         thm('EmmetProps.C06_keys', 'for EVERY key of the generated built-in table (regenerated from emmet/snippets/css.py on every run): the fuzzy matcher run on exactly that key selects that entry and no other (decide +kernel over the whole table)'),
     ],
     'domains': ['dom_style'],
@@ -178,11 +182,15 @@ PROPS['C01'] = {
     'theorems': [
         thm('EmmetProps.C01_parse', 'for EVERY operator skeleton (elements, groups, *N, > + ^... at any depth): the parser model on its tokens returns exactly the forest the operators denote (compositional `levels` semantics; ^ stops at the top level and at a group boundary; a group is one unit)'),
         thm('EmmetProps.C01_unroll', 'for EVERY skeleton forest: the converter model yields every written element exactly once per repetition, in document order, groups spliced'),
+        thm('EmmetProps.C01_implicit_table', 'the REGENERATED ELEMENT_MAP looked up with ANY parent name is the documented table (li in ul/ol, tr in table/tbody/thead/tfoot, td in tr, option in select/optgroup, span in p; col, source, param, area), and nothing else'),
+        thm('EmmetProps.C01_implicit_name', 'for EVERY option set, parent / context name and node written with attributes but no name: implicit_tag gives it the documented name for the lower-cased context (documented table, span inside the configured inline-level elements, div otherwise)'),
+        thm('EmmetProps.C01_named_kept', 'an element written with a name keeps its own name'),
+        thm('EmmetProps.C01_inline_default', 'the default inline-level elements of the REGENERATED DEFAULT_OPTIONS are the 39 documented ones'),
     ],
     'domains': ['dom_markup'],
     'rule': 'EVERY operator skeleton with up to 4 items over > + ^ ^^ ( ) *2 (exhaustive; 15 822 skeletons) x 1 (quick) / 4 (thorough) configurations, plus random abbreviations from the typed AST generator (elements with implicit names, classes, ids, attributes, text, *N, groups to depth 3, climbs up to ^^^) under html/xml/xhtml self-closing styles, format on/off and parent contexts; expected tag sequence computed from the statement (levels semantics + unrolling + implicit-name table) and compared with the tags read from the output; non-trivial = at least two operators; distinct = distinct (abbreviation, config)',
     'explanation': 'Parser and converter stages are theorems over all skeletons; the implicit-name table, snippet resolution and the formatter stage that prints the tree are decided by correspondence (full pipeline model = expand() on every generated input) and by the statement-derived oracle.',
-    'level_text': 'Lean 4 theorems over ALL operator skeletons: parser = denotation, converter = unrolling. The printed output carrying that tree (implicit names, formatter) is at correspondence + oracle level, exhaustive for small skeletons.',
+    'level_text': 'Lean 4 theorems over ALL operator skeletons: parser = denotation, converter = unrolling; implicit names: the regenerated ELEMENT_MAP and implicit_tag model give the documented name for every parent. The printed output carrying that tree (formatter) is at correspondence + oracle level, exhaustive for small skeletons.',
     'level_note': 'Trusted: Lean kernel + standard axioms; hand-written models of tokenizer, parser, convert, snippets, implicit_tag, html formatter (0 differences with expand() on all explored inputs). The lexical step print(skeleton) -> tokens is covered by correspondence, not proved.',
     'assumptions': [CORR],
 }
@@ -264,7 +272,9 @@ PROPS['C14'] = {
     'lean_targets': ['EmmetProps.C14'],
     'lean_imports': ['EmmetProps.C14'],
     'theorems': [thm('EmmetProps.C14_terminates', 'for EVERY snippet table (self-referencing and mutually recursive included), every forest: resolution with nesting counter |table|+1 never runs out — nesting is at most the number of snippets', partial=True),
-                 thm('EmmetProps.C14_terminates_model', 'the same on the model of markup/snippets.py (nesting counter |table|+1, structural recursion over the tree): for every option set / merged table and every forest, resolution never exhausts the counter (hypothesis: the abbreviation parser itself does not run out of fuel)')],
+                 thm('EmmetProps.C14_names_distinct', 'whole REGENERATED html / xsl / pug snippet files as written (`a|b: definition`): no alias name is claimed by two entries, so every written name selects its own entry (kernel evaluation over the tables)'),
+        thm('EmmetProps.C14_names_from_source', 'the names of the flattened html table the resolver model uses are exactly the written names, in order'),
+        thm('EmmetProps.C14_terminates_model', 'the same on the model of markup/snippets.py (nesting counter |table|+1, structural recursion over the tree): for every option set / merged table and every forest, resolution never exhausts the counter (hypothesis: the abbreviation parser itself does not run out of fuel)')],
     'domains': ['dom_markup'],
     'rule': 'exhaustive: every entry of the live html, xsl and pug snippet tables x both attribute orders: expand(alias) must equal expand(definition); entries whose definition is a single element additionally with added class / id / attribute set / text / *2, chain definitions with added children (alone and inside a larger abbreviation); plus random user tables over 7 names with self-references and cycles; non-trivial = at least two operators; distinct = distinct (abbreviation, config)',
     'explanation': 'Termination is a theorem on an abstract resolver (nesting counter + structural tree recursion); alias = definition and the merge rules are decided exhaustively over the live tables by the oracle on the implementation plus correspondence with the model.',
